@@ -97,7 +97,44 @@ def compare(node, impl_log, ref_log, what):
                             f'stage {stage} at {path} saw {seen}\nthe lazy reference evaluates only {want}')
 
 
+def check_eager(case):
+    """An eager operation (filter(lazy=False), sort, cache(lazy=False), groupby) on top of a lazy program: its
+    construction evaluates what ONE full pass over the input evaluates - nothing twice - and reading the result
+    afterwards evaluates only what the result is made of."""
+    base, op = case['ast'], case['eager']
+    desc = f'program: {progs.show(base)} then {op}'
+    env = B.Env(raw_sources=True)
+    ds = B.build(base, env)
+    if env.log:
+        raise Violation('construction-evaluates', f'{desc}\nconstruction alone evaluated {env.log[:6]}')
+    try:
+        if op == 'filter_eager':
+            out = ds.filter(lambda x: progs.f_pred(2, 0, x), lazy=False)
+        elif op == 'sort':
+            out = ds.sort(lambda x: progs.f_key(3, x))
+        elif op == 'cache_eager':
+            out = ds.cache(lazy=False)
+        else:
+            out = ds.groupby(lambda x: progs.f_key(2, x))
+    except Exception as e:
+        raise Violation('eager-op-raised', f'{desc}\n{type(e).__name__}: {str(e)[:300]}')
+    full = LazyRef()
+    list(full.iter(base))
+    want = by_path(full.log)
+    seen = by_path(list(env.log))
+    nodes = dict(progcheck.subnodes(base))
+    for path, args in seen.items():
+        allw = want.get(path, [])
+        extra = [a for a in set(args) if args.count(a) > allw.count(a)]
+        if extra:
+            raise Violation(f'eager-evaluated-twice|{nodes[path]["op"] if path in nodes else "?"}',
+                            f'{desc}\nstage at {path} saw {args}\none full pass evaluates {allw}')
+    return len(env.log)
+
+
 def check(case):
+    if case.get('eager'):
+        return check_eager(case)
     node = case['ast']
     desc = f'program: {progs.show(node)} mode={case["mode"]} arg={case.get("arg")}'
     env = B.Env(raw_sources=True)
@@ -166,6 +203,13 @@ def st_case(draw):
         # duplicate keys: key operations may refuse (C03); demand is studied on pipelines that answer
         node = next(n for n in progs.walk(node) if n['op'] in progs.LEAVES)
         m = ev(node)
+    if m.indexable and m.sized and not m.has_raise and not m.unordered and draw(st.integers(0, 5)) == 0:
+        eager_ops = ['filter_eager', 'sort', 'groupby']
+        if m.cap_items == 'req' or not any(n['op'] == 'dict' for n in progs.walk(node)):
+            # eager caching first probes items(); for a MIXED keyed / key-less input that probe evaluates the keyed
+            # part before it fails and the fallback pass evaluates it again - a cost, not part of this statement
+            eager_ops.append('cache_eager')
+        return {'ast': node, 'mode': 'eager', 'arg': None, 'eager': draw(st.sampled_from(eager_ops))}
     modes = ['prefix', 'prefix']
     if m.indexable and m.sized and m.n and not m.int_taint:
         modes.append('index')
@@ -194,11 +238,14 @@ def run_shard(tier, idx, nshards, rec, known):
         m = ev(node)
         instrumented = sum(1 for n in progs.walk(node) if n['op'] in ('map', 'filter', 'frag', 'batch_map', 'parmap',
                                                                         'nonemap'))
-        if case['mode'] in ('prefix', 'cycle'):
+        if case['mode'] == 'eager':
+            nt = m.n >= 2 and instrumented >= 1
+        elif case['mode'] in ('prefix', 'cycle'):
             nt = 0 < case['arg'] < m.n and progs.depth(node) >= 2 and instrumented >= 2
         else:
             nt = progs.depth(node) >= 3
         cls = {'op:' + o for o in progs.ops(node)} | {'mode:' + case['mode']}
-        rec.case({'program': progs.show(node), 'mode': case['mode'], 'arg': case['arg'], 'ast': node}, nt, cls,
+        rec.case({'program': progs.show(node), 'mode': case['mode'], 'arg': case['arg'], 'ast': node,
+                  'eager': case.get('eager')}, nt, cls,
                  size=progs.size(node))
     return [drive(one, st_case(), N[tier], rec, known, seed() * 1000 + idx)]
